@@ -109,7 +109,7 @@ func c01WideInputs(out *ndWriter, rng *rand.Rand, base int) {
 			}
 			c.Inputs = circuit.IO{arg}
 		}
-		for rep := 0; rep < 6; rep++ {
+		for rep := 0; rep < 9; rep++ {
 			inp := make([]int, nin)
 			for i := range inp {
 				inp[i] = rng.Intn(2)
@@ -117,6 +117,12 @@ func c01WideInputs(out *ndWriter, rng *rand.Rand, base int) {
 			ofs := 0
 			var pos, neg []*big.Int
 			for _, w := range widths {
+				// values whose negative spelling is a small number (-1, -k): every bit above the low ones is set
+				for i := 0; i < w && rep < 3; i++ {
+					if rep == 0 || i >= 8+20*rep {
+						inp[ofs+i] = 1
+					}
+				}
 				inp[ofs+w-1] = 1 // top bit set: the negative spelling exists
 				v := new(big.Int)
 				for i := 0; i < w; i++ {
